@@ -50,6 +50,7 @@ def values(ty, rng, n):
     pts = [None, g1_gen() if g == 1 else g2_gen()] + [G.subgroup_point(g, rng) for _ in range(n)]
     pts += [c.neg(p) for p in pts[2:4]]
     pts += [P for _, P in rng.sample(G.prefix_points(g), 4)]
+    pts += [P for t, P in G.prefix_points(g) if t == "enc-half"][:2]
     out = []
     for P in pts:
         if ty.endswith("a"):
